@@ -51,6 +51,17 @@ pub struct FastaModel {
     pub starts: Vec<usize>,
 }
 
+/// `word` with, now and then, a 2- or 3-byte UTF-8 character (descriptions, attribute values and
+/// names are free text): a delivery boundary can then fall inside a multi-byte sequence.
+fn uword(rng: &mut Rng, max: usize) -> String {
+    let mut w = word(rng, max);
+    if rng.chance(1, 8) {
+        let at = rng.usize_below(w.len() + 1);
+        w.insert(at, if rng.bool() { 'é' } else { '→' });
+    }
+    w
+}
+
 fn word(rng: &mut Rng, max: usize) -> String {
     let n = 1 + rng.usize_below(max);
     (0..n)
@@ -75,7 +86,7 @@ pub fn fasta(p: &TextParams) -> FastaModel {
         let name = format!("sq{i}{}", if rng.bool() { word(&mut rng, 6) } else { String::new() });
         let description = rng.chance(1, 3).then(|| {
             let n = 1 + rng.usize_below(3);
-            (0..n).map(|_| word(&mut rng, 8)).collect::<Vec<_>>().join(" ")
+            (0..n).map(|_| uword(&mut rng, 8)).collect::<Vec<_>>().join(" ")
         });
         let len = match rng.below(8) {
             // empty sequences are rejected by the FASTA indexer by design: not generated
@@ -130,7 +141,7 @@ pub fn fastq(p: &TextParams) -> FastqModel {
     let mut starts = Vec::new();
     for i in 0..p.n_records {
         let name = format!("r{i}{}", if rng.bool() { word(&mut rng, 8) } else { String::new() });
-        let description = if rng.chance(1, 3) { word(&mut rng, 10) } else { String::new() };
+        let description = if rng.chance(1, 3) { uword(&mut rng, 10) } else { String::new() };
         let len = if rng.chance(1, 10) { 1 } else { 1 + rng.usize_below(p.max_len.max(1)) };
         let sequence: Vec<u8> = (0..len).map(|_| *rng.pick(b"ACGTN")).collect();
         // quality may start with '@' or '+': classic parser traps
@@ -184,7 +195,7 @@ fn finish_lines(lines: Vec<String>, crlf: bool) -> LinesModel {
 
 fn pct(rng: &mut Rng) -> String {
     // attribute value with characters that need percent-encoding in GFF3
-    let mut s = word(rng, 8);
+    let mut s = uword(rng, 8);
     if rng.chance(1, 4) {
         s.push_str(*rng.pick(&["%3B", "%3D", "%2C", "%25", "%26", "%09"]));
         s.push_str(&word(rng, 3));
